@@ -302,6 +302,10 @@ func newton_min(
       } else {
         t1.VmulS(t1, alpha)
         x2.VsubV(x1, t1)
+        // never accept a position that violates the constraints
+        if constraints.Value != nil && !constraints.Value(x2) {
+          return x1, fmt.Errorf("line search failed")
+        }
       }
     } else {
       for {
